@@ -9,6 +9,7 @@
 
 use c20_konst as konst;
 use c20_plain as plain;
+use c20_shared::BigLayout;
 use pc_keyboard::layouts::*;
 use pc_keyboard::*;
 use std::sync::Mutex;
